@@ -210,6 +210,13 @@ impl<S: ShortGroupSignatureScheme> Presentation<S> {
             transcript.append_message(b"disclosed message label", label.as_bytes());
             transcript.append_message(b"disclosed message index", &Uint::from(i).to_vec());
             transcript.append_message(b"disclosed message value", &claim.to_bytes());
+            if let ClaimData::Hashed(h) = claim {
+                // the flag travels with the claim and decides how a verifier shows the value
+                transcript.append_message(
+                    b"disclosed message print friendly",
+                    &[h.print_friendly as u8],
+                );
+            }
             transcript.append_message(
                 b"disclosed message scalar",
                 &claim.to_scalar().to_be_bytes(),
